@@ -1,0 +1,84 @@
+//go:build verif
+
+// Verification hook (engine router2): packet processors of their own (one per goroutine, as
+// runProcessor creates them), sequentially and concurrently.
+
+package router
+
+import (
+	"fmt"
+	"net"
+	"sync"
+)
+
+// VerifR2Proc is one packet processor (newPacketProcessor) of the data plane with its own state
+// carried from packet to packet, as each processing goroutine has.
+type VerifR2Proc struct {
+	v *VerifR2DP
+	p *scionPacketProcessor
+}
+
+// NewProc creates a fresh packet processor: it has not processed any packet yet.
+func (v *VerifR2DP) NewProc() *VerifR2Proc {
+	return &VerifR2Proc{v: v, p: newPacketProcessor(v.d)}
+}
+
+func (vp *VerifR2Proc) run(raw []byte, via uint16) (r VerifR2Result) {
+	defer func() {
+		if e := recover(); e != nil {
+			r = VerifR2Result{Disp: -2, Remote: fmt.Sprint("panic: ", e)}
+		}
+	}()
+	p := vp.v.newPacket(raw, via)
+	if p.Link == nil {
+		panic("VerifR2: no link behind that interface")
+	}
+	before := p.RemoteAddr
+	disp := vp.p.processPkt(p)
+	r = VerifR2Result{
+		Disp:     int(disp),
+		Egress:   p.egress,
+		Out:      append([]byte(nil), p.RawPacket...),
+		SlowType: int(p.slowPathRequest.spType),
+		SlowCode: int(p.slowPathRequest.code),
+		SlowPtr:  int(p.slowPathRequest.pointer),
+		pkt:      p,
+	}
+	if p.RemoteAddr != before && p.RemoteAddr != nil {
+		r.Remote = (*net.UDPAddr)(p.RemoteAddr).String()
+	}
+	return r
+}
+
+// Process runs the fast path of this processor on one packet (panics propagate).
+func (vp *VerifR2Proc) Process(raw []byte, via uint16) VerifR2Result {
+	r := vp.run(raw, via)
+	if r.Disp == -2 {
+		panic(r.Remote)
+	}
+	return r
+}
+
+// ProcessConcurrent gives each list of packets to a goroutine with its own fresh packet
+// processor and lets them all work at the same time (started together). Result i,j is what
+// goroutine i's processor did with its packet j; Disp -2 marks a panic (message in Remote).
+func (v *VerifR2DP) ProcessConcurrent(lists [][]VerifR2LoopPacket) [][]VerifR2Result {
+	res := make([][]VerifR2Result, len(lists))
+	var wg sync.WaitGroup
+	start := make(chan struct{})
+	for i := range lists {
+		res[i] = make([]VerifR2Result, len(lists[i]))
+		vp := v.NewProc()
+		wg.Add(1)
+		go func(i int, vp *VerifR2Proc) {
+			defer wg.Done()
+			<-start
+			for j, lp := range lists[i] {
+				res[i][j] = vp.run(lp.Raw, lp.Via)
+			}
+		}(i, vp)
+	}
+	close(start)
+	wg.Wait()
+	return res
+}
